@@ -100,6 +100,10 @@ def run_case(cs):
         t3 = {k: v for k, v in world.read_tree(root).items()}
         if world.add_file_symlinks(rng, root, t3, rng.randint(1, 2), outside=os.path.join(d, "outside")):
             cs.count("trees_with_file_symlinks")
+    if rng.random() < 0.15:
+        os.makedirs(os.path.join(d, "outside"), exist_ok=True)
+        if world.add_dir_symlinks(rng, root, {k: v for k, v in world.read_tree(root).items()}, rng.randint(1, 2), outside=os.path.join(d, "outside")):
+            cs.count("trees_with_folder_symlinks")
     hists = world.find_histories(root)
     mode = "sf" if rng.random() < 0.3 and any(v is not None for v in tree.values()) else "folder"
     formats = world.gen_formats(rng, repeat=True)
